@@ -1789,6 +1789,7 @@ fn escape_scalar_string(value: &[u8], start: usize, end: usize, json: &mut Strin
     let mut last_start = start;
     for i in start..end {
         // add backslash for escaped characters.
+        let escaped: String;
         let c = match value[i] {
             0x5C => "\\\\",
             0x22 => "\\\"",
@@ -1797,6 +1798,11 @@ fn escape_scalar_string(value: &[u8], start: usize, end: usize, json: &mut Strin
             0x0A => "\\n",
             0x0D => "\\r",
             0x09 => "\\t",
+            // the other control characters must be escaped as well (RFC 8259 section 7)
+            0x00..=0x1F => {
+                escaped = format!("\\u{:04x}", value[i]);
+                escaped.as_str()
+            }
             _ => {
                 continue;
             }
